@@ -3,9 +3,15 @@
 
     One [step] = one atomic action of the real code: an atomic load, a compare_exchange, an
     [Arc] strong-count increment or decrement, a [dup] system call, a [close] system call.
-    These are exactly the places where unixfd.rs has a [verif_hooks::point] (feature
-    [verif_hooks]); the harness (harness/src/bin/c12.rs) releases one thread from one point to
-    the next per schedule entry, so a schedule entry of the harness is a [step] of this model.
+    Under the feature [verif_hooks] the atomic cell of unixfd.rs is [verif_hooks::atomic_shim::AtomicI32],
+    whose every load / store / compare_exchange / swap / fetch_* is itself a scheduling point named
+    after the operation; dup and close, the Arc decrement and the Arc increment have a point in
+    front of them. The harness (harness/src/bin/c12.rs) releases one thread from one such point to
+    the next per schedule entry, so a schedule entry of the harness is one shared-memory access or
+    system call = one [step] of this model, and the compared observable ([exec_obs]) is the sequence
+    of atomic operations and system calls: code that replaces one atomic operation by several
+    (a load followed by a store instead of the compare_exchange) no longer matches the model and
+    its extra interleavings are explored.
 
     Every [UnixFd] value is a handle on an *object* ([Arc<UnixFdInner>]: an atomic cell and a
     strong count). Object 0 is the one created by [UnixFd::new(fd0)] and shared by all threads;
@@ -334,9 +340,11 @@ Definition open_fds (fd0 : Z) (c : cfg) : list Z :=
                           | _ => acc
                           end) (trace c) [fd0].
 
-(** The scheduling point a thread is blocked at = the [verif_hooks::point] name in unixfd.rs in
-    front of the atomic action it performs next ("clone.inc" and "skip" are supplied by the
-    harness: a derived Clone cannot carry a point, a skipped operation calls nothing). *)
+(** The scheduling point a thread is blocked at. On the cell it is the atomic operation itself
+    ([PGetLoad], [PTakeLoad]: "atomic.load"; [PTakeCas]: "atomic.compare_exchange", reported by the
+    atomic shim; the labels "get.load" / "take.load" / "take.cas" in unixfd.rs only say where in the
+    code it is); "clone.inc" and "skip" are supplied by the harness (a derived Clone cannot carry a
+    point, a skipped operation calls nothing). *)
 Inductive point := PGetLoad | PTakeLoad | PTakeCas | PHandleDrop | PDupSys | PCloneInc | PDropClose | PSkip.
 Definition next_point (th : thread) : option point :=
   match pc th with
